@@ -301,7 +301,7 @@ func c08Run(c *Ctx) {
 				if c.Thorough() || cut%3 == 0 {
 					for _, seam := range []string{"page", "layout", "component"} {
 						cs := c08Case{Mode: "prefix", Seam: seam, Src: full[:cut], MustReject: must, Why: why}
-							c08Do(c, cs, int64(cut))
+						c08Do(c, cs, int64(cut))
 					}
 				}
 			}
